@@ -28,6 +28,7 @@
 #include <hgraph/types/static_node.h>
 #include <hgraph/types/subgraph_wiring.h>
 
+#include <cstdlib>
 #include <map>
 #include <memory>
 #include <optional>
@@ -654,7 +655,14 @@ namespace
                 return "reuse-same";
             }
         }
-        catch (const std::exception &e) { logf("build-err " + classify(e.what())); }
+        catch (const std::exception &e)
+        {
+            // canonical: the model cannot reproduce wiring error texts
+            const std::string c = classify(e.what());
+            std::cerr << "build-err " << c << "\n";
+            g_log.clear();
+            logf(c == "cycle" ? "build-err cycle" : "build-err other");
+        }
         return join_log();
     }
 
@@ -664,8 +672,19 @@ namespace
     {
         const std::string expect = run_case();
         if (expect.find("build-err") != std::string::npos) { return "par-same"; }
-        struct Job { std::unique_ptr<Obs> obs; std::unique_ptr<GraphExecutorBuilder> eb; std::string head; std::string out; };
+        struct Job
+        {
+            std::unique_ptr<Obs>                  obs;
+            std::unique_ptr<GraphExecutorBuilder> eb;
+            std::optional<GraphExecutorValue>     executor;
+            std::string                           head;
+            std::string                           out;
+        };
         std::vector<Job> jobs(static_cast<std::size_t>(n));
+        // wiring AND executor construction happen one after the other on this thread; only run()
+        // (and the release of each executor) is concurrent.  HGV_PAR_MAKE=1 moves make_executor into
+        // the threads as well (diagnostic: concurrent construction races in the registries).
+        const bool par_make = std::getenv("HGV_PAR_MAKE") != nullptr;
         for (auto &j : jobs)
         {
             g_k2lbl.clear();
@@ -680,17 +699,26 @@ namespace
             j.eb->graph_builder(std::move(gb)).mode(GraphExecutorMode::Simulation).start_time(dt(g_start)).end_time(dt(g_end));
             j.eb->add_lifecycle_observer(j.obs.get());
             j.eb->cleanup_on_error(g_cleanup);
+            if (!par_make) { j.executor.emplace(j.eb->make_executor()); }
         }
         const auto k2lbl_snapshot = g_k2lbl;
         std::vector<std::thread> ts;
         for (auto &j : jobs)
         {
-            ts.emplace_back([&j, &k2lbl_snapshot] {
+            ts.emplace_back([&j, &k2lbl_snapshot, par_make] {
                 g_log.clear();
                 g_fault_calls.clear();
                 g_k2lbl = k2lbl_snapshot;
                 logf(j.head);
-                run_once(*j.eb);
+                if (par_make) { j.executor.emplace(j.eb->make_executor()); }
+                try
+                {
+                    j.executor->view().run();
+                    logf("run-ok");
+                }
+                catch (const std::exception &e) { logf("run-err " + classify(e.what())); }
+                logf("release");
+                j.executor.reset();
                 logf("released");
                 j.out = join_log();
             });
